@@ -496,3 +496,126 @@ theorem bits63 (x : Int) (h : 0 ≤ x) : 63 < bitLength x ↔ 2 ^ 63 ≤ x := by
   omega
 
 end PyNum
+
+namespace Impl.Arith
+
+theorem fromValue_int (x : Int) : fromValue .int x = .ok (.num .int x) := rfl
+theorem fromValue_timestamp (x : Int) : fromValue .timestamp x = .ok (.num .timestamp x) := rfl
+theorem fromValue_nat (x : Int) : fromValue .nat x = if x < 0 then .error .assertion else .ok (.num .nat x) := by
+  show (match runGuards [.assertNonneg] x with | .ok () => _ | .error e => _) = _
+  simp only [runGuards]
+  by_cases h : x < 0 <;> simp [h]
+theorem fromValue_mutez (x : Int) : fromValue .mutez x =
+    if x < 0 then .error .assertion else if 63 < PyNum.bitLength x then .error .overflow else .ok (.num .mutez x) := by
+  show (match runGuards [.assertNonneg, .overflowIfBitsGt 63] x with | .ok () => _ | .error e => _) = _
+  simp only [runGuards]
+  by_cases h : x < 0 <;> simp [h]
+  by_cases h2 : 63 < PyNum.bitLength x <;> simp [h2]
+
+/-- the `from_value` constructors build a value exactly when the type has one -/
+theorem fromValue_spec (t : NTy) (x : Int) : (fromValue t.prim x).toOption = Spec.Arith.mk t x := by
+  cases t with
+  | int => rfl
+  | timestamp => rfl
+  | nat =>
+    show (fromValue .nat x).toOption = _
+    rw [fromValue_nat]; unfold Spec.Arith.mk
+    by_cases h : x < 0
+    · have : ¬ 0 ≤ x := by omega
+      simp [h, this, Except.toOption]
+    · have : 0 ≤ x := by omega
+      simp [h, this, Except.toOption]
+  | mutez =>
+    show (fromValue .mutez x).toOption = _
+    rw [fromValue_mutez]; unfold Spec.Arith.mk
+    by_cases h : x < 0
+    · have : ¬ (0 ≤ x ∧ x < 2 ^ 63) := by omega
+      simp only [h, this, if_true, if_false, Except.toOption]
+    · have h0 : 0 ≤ x := by omega
+      have hb := bits63 x h0
+      by_cases h2 : 63 < bitLength x
+      · have : ¬ (0 ≤ x ∧ x < 2 ^ 63) := by omega
+        simp only [h, h2, this, if_true, if_false, Except.toOption]
+      · have : 0 ≤ x ∧ x < 2 ^ 63 := by omega
+        simp only [h, h2, this, if_true, if_false, Except.toOption, and_self]
+
+theorem wrap_toOption (r : Except Err Val) : (wrap r).toOption = r.toOption.map .one := by
+  cases r <;> rfl
+
+theorem wrap_fromValue_spec (t : NTy) (x : Int) : (wrap (fromValue t.prim x)).toOption = (Spec.Arith.mk t x).map .one := by
+  rw [wrap_toOption, fromValue_spec]
+
+theorem edivNum_spec (tq tr : NTy) (x y : Int) :
+    (edivNum tq.prim tr.prim x y).toOption = Spec.Arith.edivAt tq tr x y := by
+  unfold edivNum Spec.Arith.edivAt
+  by_cases hy : y = 0
+  · simp [hy, Except.toOption]
+  · simp only [hy, if_false]
+    rw [divmod_euclid x y hy]
+    simp only []
+    rw [← fromValue_spec tq, ← fromValue_spec tr]
+    cases fromValue tq.prim (x / y) <;> cases fromValue tr.prim (x % y) <;> rfl
+
+end Impl.Arith
+
+namespace Spec.Arith
+open PyNum
+
+theorem toNat_testBit (r : Int) (h : 0 ≤ r) (i : Nat) : r.toNat.testBit i = bit r i := by
+  cases r with
+  | ofNat n => rfl
+  | negSucc n => exact absurd h (by simp)
+
+theorem nonneg_of_bits (r : Int) (k : Nat) (h : ∀ i, k ≤ i → bit r i = false) : 0 ≤ r := by
+  apply Classical.byContradiction
+  intro hn
+  have hneg : r < 0 := by omega
+  obtain ⟨k', hk'⟩ := (bit_sign r).1 hneg
+  have h1 := h (max k k') (Nat.le_max_left ..)
+  have h2 := hk' (max k k') (Nat.le_max_right ..)
+  rw [h1] at h2; simp at h2
+
+theorem bit_high_false (z : Int) (h : 0 ≤ z) : ∀ i, z.toNat ≤ i → bit z i = false := by
+  intro i hi
+  rw [← toNat_testBit z h]
+  exact Nat.testBit_lt_two_pow (Nat.lt_of_le_of_lt hi Nat.lt_two_pow_self)
+
+theorem and_nonneg_right (a b : Int) (hb : 0 ≤ b) : 0 ≤ PyNum.and a b :=
+  nonneg_of_bits _ b.toNat fun i hi => by rw [bit_and, bit_high_false b hb i hi]; simp
+
+theorem and_nonneg_left (a b : Int) (ha : 0 ≤ a) : 0 ≤ PyNum.and a b :=
+  nonneg_of_bits _ a.toNat fun i hi => by rw [bit_and, bit_high_false a ha i hi]; simp
+
+theorem or_nonneg (a b : Int) (ha : 0 ≤ a) (hb : 0 ≤ b) : 0 ≤ PyNum.or a b :=
+  nonneg_of_bits _ (max a.toNat b.toNat) fun i hi => by
+    rw [bit_or, bit_high_false a ha i (Nat.le_trans (Nat.le_max_left ..) hi),
+      bit_high_false b hb i (Nat.le_trans (Nat.le_max_right ..) hi)]; rfl
+
+theorem xor_nonneg (a b : Int) (ha : 0 ≤ a) (hb : 0 ≤ b) : 0 ≤ PyNum.xor a b :=
+  nonneg_of_bits _ (max a.toNat b.toNat) fun i hi => by
+    rw [bit_xor, bit_high_false a ha i (Nat.le_trans (Nat.le_max_left ..) hi),
+      bit_high_false b hb i (Nat.le_trans (Nat.le_max_right ..) hi)]; rfl
+
+/-- on naturals Python's `&`, `|`, `^` are the bitwise operations of `Nat` -/
+theorem and_nat (a b : Int) (ha : 0 ≤ a) (hb : 0 ≤ b) : PyNum.and a b = ((a.toNat &&& b.toNat : Nat) : Int) := by
+  have h0 := and_nonneg_left a b ha
+  have : (PyNum.and a b).toNat = a.toNat &&& b.toNat := by
+    apply Nat.eq_of_testBit_eq; intro i
+    rw [toNat_testBit _ h0, bit_and, Nat.testBit_and, toNat_testBit a ha, toNat_testBit b hb]
+  omega
+
+theorem or_nat (a b : Int) (ha : 0 ≤ a) (hb : 0 ≤ b) : PyNum.or a b = ((a.toNat ||| b.toNat : Nat) : Int) := by
+  have h0 := or_nonneg a b ha hb
+  have : (PyNum.or a b).toNat = a.toNat ||| b.toNat := by
+    apply Nat.eq_of_testBit_eq; intro i
+    rw [toNat_testBit _ h0, bit_or, Nat.testBit_or, toNat_testBit a ha, toNat_testBit b hb]
+  omega
+
+theorem xor_nat (a b : Int) (ha : 0 ≤ a) (hb : 0 ≤ b) : PyNum.xor a b = ((a.toNat ^^^ b.toNat : Nat) : Int) := by
+  have h0 := xor_nonneg a b ha hb
+  have : (PyNum.xor a b).toNat = a.toNat ^^^ b.toNat := by
+    apply Nat.eq_of_testBit_eq; intro i
+    rw [toNat_testBit _ h0, bit_xor, Nat.testBit_xor, toNat_testBit a ha, toNat_testBit b hb]
+  omega
+
+end Spec.Arith
